@@ -32,7 +32,7 @@ Init == /\ l = 1 /\ model = NoModel /\ stored = {} /\ bad = <<>>
 Ev1 == Trace[l]
 IsEvent(e) == l <= Len(Trace) /\ Trace[l].e = e /\ l' = l + 1
 
-OKs == {"OK_T", "OK_F", "OK_ERR", "OK_ERR_DECIDED","OK_LO", "OK_LO_ERR", "OK_LO_ERR_OTHERCODE", "OK_LO_LIMIT", "OK_LU", "OK_LU_ERR", "OK_EXPAND", "OK_DUMP", "OK_BATCH",
+OKs == {"OK_T", "OK_F", "OK_ERR", "OK_ERR_DECIDED","OK_LO", "OK_LO_ERR", "OK_LO_ERR_OTHERCODE", "OK_LO_LIMIT", "OK_LU", "OK_LU_ERR", "OK_EXPAND", "OK_DUMP", "OK_BATCH", "OK_V2_SHAPE_ERR", "OK_V2_DOCUMENTED_DIFF", "OK_V2_SAME_AS_V1",
         "SKIP_DEPTH", "SKIP_UNSTRATIFIED"}
 
 Bump(c, cls) == [x \in DOMAIN c \cup {cls} |-> IF x = cls THEN (IF x \in DOMAIN c THEN c[x] ELSE 0) + 1 ELSE c[x]]
@@ -114,9 +114,73 @@ TrSetup ==
   /\ stored' = SeqToSet(Ev1.tuples)
   /\ UNCHANGED <<bad, counts, judged, skipped>>
 
+\* A Check event may carry "solo": the outcome of the same request issued as a
+\* standalone Check in the same run (BatchCheck items, C07; AuthZEN evaluations, C32).
+\* The two outcomes must agree, and the reported one is judged against the reference.
 TrCheck ==
   /\ IsEvent("Check")
-  /\ LET c == CheckClass(model, AllTuples(Ev1), Ev1) IN Judge(c[1], c[2], Ev1.eng)
+  /\ LET c == CheckClass(model, AllTuples(Ev1), Ev1) IN
+     IF "solo" \in DOMAIN Ev1 /\ Ev1.solo # Ev1.got /\ c[1] \in OKs
+     THEN Judge("BAD_DIFFERS_FROM_STANDALONE", c[2], Ev1.eng)
+     ELSE Judge(c[1], c[2], Ev1.eng)
+  /\ UNCHANGED <<model, stored>>
+
+---------------------------------------------------------------------------
+\* V2Check (C03): an answer of the weighted-graph engine, with the v1 answer to the
+\* same input (v1) and the breaking-change detector's verdicts (reason, xreason).
+\*  - object subjects: a decision must equal the reference;
+\*  - userset / wildcard subjects: a decision that differs from v1's decision must
+\*    be announced by the detector (non-empty reason or exclusion reason);
+\*  - errors: a documented request-shape error (userset / wildcard meeting an
+\*    exclusion; the detector must name the shape), or an accepted condition error.
+\* The documented catalogue of v1 -> v2 breaking-change shapes for userset subjects
+\* (pkg/server/commands/v2breaking doc comments), restated over the model:
+DocumentedShape(M, o, r, u) ==
+  LET rw == Rw(M, o.t, r) IN
+  \/ u = [t |-> o.t, id |-> o.id, rel |-> r]                                  \* self_referential_userset
+  \/ /\ u.t = o.t /\ u.id = o.id                                              \* computed_userset_self_object
+     /\ \E x \in SubRw(rw) : x.k = "computed" /\ x.rel = u.rel
+  \/ \E x \in SubRw(rw) :                                                     \* ttu_userset
+       /\ x.k = "ttu" /\ x.rel = u.rel
+       /\ HasRel(M, o.t, x.ts) /\ \E y \in Restr(M, o.t, x.ts) : y.t = u.t
+  \/ /\ \E y \in Restr(M, o.t, r) :                                           \* alias_userset
+          /\ y.rel # "" /\ y.t = u.t /\ HasRel(M, y.t, y.rel)
+          /\ Rw(M, y.t, y.rel).k = "computed" /\ Rw(M, y.t, y.rel).rel = u.rel
+     /\ ~ \E y \in Restr(M, o.t, r) : y.t = u.t /\ y.rel = u.rel
+  \/ \E x \in SubRw(rw) : x.k = "diff"                                        \* userset_with_exclusion
+
+\* A valid-by-type conditional tuple whose stored context does not fit the declared
+\* parameter types (it is invalid for the model and must be ignored) lies in the
+\* type-level read set: the v2 engine evaluates its condition anyway.
+TouchedMistyped(M, TS, o, r) ==
+  LET rk == TReadKeys(M, o.t, r) IN
+  \E t \in TS : /\ <<t.o.t, t.r>> \in rk /\ t.c # "" /\ HasCond(M, t.c)
+                /\ ~CtxFits(CondDef(M, t.c), t.cctx)
+                /\ HasRel(M, t.o.t, t.r) /\ \E x \in Restr(M, t.o.t, t.r) : RestrMatches(x, t)
+
+V2Class(M, TS, ev) ==
+  LET ref == Holds(M, TS, ev.ctx, ev.o, ev.r, ev.u) IN
+  IF DepthBound(M, TS, ev.o, ev.r) > DepthLimit THEN <<"SKIP_DEPTH", ref>>
+  ELSE IF ev.got = "ERR" THEN
+         IF ev.shape # "" THEN
+           (IF (ev.shape = "wildcard" /\ IsWild(ev.u)) \/ (ev.shape = "userset" /\ IsUserset(ev.u))
+            THEN <<"OK_V2_SHAPE_ERR", ref>> ELSE <<"BAD_V2_SHAPE_ERR_ON_OBJECT_SUBJECT", ref>>)
+         ELSE IF ev.errk = "cond" /\ TouchedE(M, TS, ev.ctx, ev.o, ev.r) THEN <<"OK_ERR", ref>>
+         ELSE IF ev.errk = "cond" /\ TouchedMistyped(M, TS, ev.o, ev.r) THEN <<"KF_V2InvalidCtxNotIgnored", ref>>
+         ELSE <<"BAD_V2_ERR", ref>>
+  ELSE IF IsPlain(ev.u) THEN CheckClass(M, TS, ev)
+  ELSE IF ev.v1 \in {"T", "F"} /\ ev.got # ev.v1 THEN
+         IF ev.reason # "" \/ ev.xreason # "" THEN <<"OK_V2_DOCUMENTED_DIFF", ref>>
+         ELSE IF IsUserset(ev.u) /\ DocumentedShape(M, ev.o, ev.r, ev.u) THEN <<"BAD_V2_DETECTOR_MISSED", ref>>
+         ELSE IF IsUserset(ev.u) /\ ev.v1 = "T" /\ ref = "T" THEN <<"KF_V2UndocumentedUsersetDiff", ref>>
+         ELSE <<"BAD_V2_UNDOCUMENTED_DIFF", ref>>
+  ELSE IF ev.v1 = "ERR" THEN
+         (IF ev.reason # "" \/ ev.xreason # "" THEN <<"OK_V2_DOCUMENTED_DIFF", ref>> ELSE CheckClass(M, TS, ev))
+  ELSE <<"OK_V2_SAME_AS_V1", ref>>
+
+TrV2Check ==
+  /\ IsEvent("V2Check")
+  /\ LET c == V2Class(model, AllTuples(Ev1), Ev1) IN Judge(c[1], c[2], Ev1.eng)
   /\ UNCHANGED <<model, stored>>
 
 ---------------------------------------------------------------------------
@@ -246,7 +310,7 @@ TrEnd ==
   /\ PrintT(<<"VERIF", "END", ToJson([l |-> l, judged |-> judged, skipped |-> skipped, bad |-> bad, counts |-> counts])>>)
   /\ UNCHANGED <<model, stored, bad, counts, judged, skipped>>
 
-Next == TrSetup \/ TrCheck \/ TrListObjects \/ TrListUsers \/ TrExpand \/ TrStateDump \/ TrBatch \/ TrEnd
+Next == TrSetup \/ TrCheck \/ TrV2Check \/ TrListObjects \/ TrListUsers \/ TrExpand \/ TrStateDump \/ TrBatch \/ TrEnd
 
 Spec == Init /\ [][Next]_vars
 
